@@ -170,7 +170,8 @@ class World:
         self.n += 1
         if init is not None:
             self.F.call_function(init, [], {}, self_value=me)
-        return self.F.call_function(self.fn, [doc], {}, self_value=me)
+        self.last = self.F.call_function(self.fn, [doc], {}, self_value=me)
+        return self.last
 
 
 def layout_value(lay):
@@ -258,6 +259,27 @@ def explore(ctx, thorough):
         if list(got) != list(want):
             bad["langs"].append(dict(case, languages=list(got), required=list(want)))
             continue
+        # the document's own round trip: read -> DFXPWriter.write -> read keeps instants, lines and italic characters
+        try:
+            wcls = ctx.index.get_class("pycaption/dfxp/base.py", "DFXPWriter")
+            wr = Stub("writer", {}, cls=wcls)
+            winit = wcls.find_method("__init__")
+            if winit is not None:
+                W.F.call_function(winit, [], {}, self_value=wr)
+            doc2 = W.F.call_function(wcls.find_method("write"), [W.last], {}, self_value=wr)
+            got2, _ = read_back(W.read(doc2))
+            # (the writer may put a blank after a closing span: lines are compared without white space)
+            sq = lambda ls: [l.replace(" ", "") for l in ls]          # noqa: E731
+            k1 = {l: [(c["start"], c["end"], sq(c["lines"]), c["italic"]) for c in cs_] for l, cs_ in got.items()}
+            k2 = {l: [(c["start"], c["end"], sq(c["lines"]), c["italic"]) for c in cs_] for l, cs_ in got2.items()}
+            if k1 != k2:
+                lang = next((l for l in k1 if k1[l] != k2.get(l)), None)
+                bad["roundtrip"].append(dict(case, why="read -> write -> read changes the captions", language=lang,
+                                             read=str(k1.get(lang))[:260], after_the_trip=str(k2.get(lang))[:260]))
+        except FoldRaise as e:
+            bad["roundtrip"].append(dict(case, why="read -> write -> read", raises=f"{e.exc_name}: {e}"[:140]))
+        except AnalysisError as e:
+            raise AnalysisError(f"DFXP read -> write -> read cannot be folded on the document '{label}': {e}")
         for lang, caps in want.items():
             g = got[lang]
             if len(g) != len(caps):
